@@ -178,6 +178,7 @@ class Recorder:
         self.known = known or []
         self.known_hits = []
         self.scrub = []                # run-private strings (temp dirs) kept out of transcripts
+        self.side = []                 # [event index, kind, text]: outcomes compared separately (World X)
 
     def want(self, prop):
         return prop in self.props
@@ -189,6 +190,11 @@ class Recorder:
         for s in self.scrub:
             text = text.replace(s, '<DIR>')
         self.lines.append(f'{self.event_index} {self.event_kind} -> {text}')
+
+    def log_side(self, text, detail=''):
+        """An outcome that is compared across executions on its own, not as part of the transcript digest
+        (World X matches differences here against the listed known findings one by one)."""
+        self.side.append([self.event_index, self.event_kind, text, detail])
 
     AMBIENT = ('caller_mutates_result', 'caller_reuses_argument')
 
@@ -234,7 +240,7 @@ class Recorder:
                'evals': self.evals, 'faults': self.faults, 'probes': self.probes,
                'sched': self.sched.hexdigest()[:16], 'states': sorted(self.states),
                'nontrivial': bool(self.fault_seen and self.pre_fault_state),
-               'known': self.known_hits, 'run': self.plan.get('run')}
+               'known': self.known_hits, 'run': self.plan.get('run'), 'side': self.side}
         if violation is not None:
             res['viol'] = {'property': violation.prop, 'oracle': violation.oracle,
                            'event': self.event_index, 'kind': self.event_kind,
